@@ -18,10 +18,22 @@ for name in sorted(os.listdir(SEEDED)):
     except Exception:
         res = {"error": (r.stdout + r.stderr)[-500:]}
     ck = (res.get("checks") or {}).get(prop, {})
-    rows.append({"id": name, "property": prop, "patch_applies": res.get("patch_applies"),
+    others = {}
+    if not ck.get("detected") and res.get("tests_ok") and res.get("demo_ok"):
+        # missed by the property's own check: do the checks of neighbouring properties see it?
+        gen_group = ["C01", "C02", "C03", "C15", "C16", "C19", "C17", "C18", "C20", "C14"]
+        core_group = ["C04", "C05", "C06", "C09", "C07", "C08", "C10"]
+        group = [p for p in (gen_group if prop in gen_group else core_group) if p != prop][:5]
+        r2 = subprocess.run([os.path.join(HERE, "tools", "seedtest.py"), d] + group, capture_output=True, text=True)
+        try:
+            others = {k: v.get("detected") for k, v in (json.loads(r2.stdout).get("checks") or {}).items()}
+        except Exception:
+            others = {}
+    rows.append({"other_checks": others, "id": name, "property": prop, "patch_applies": res.get("patch_applies"),
                  "tests_ok": res.get("tests_ok"), "demo_ok": res.get("demo_ok"),
                  "detected": ck.get("detected"), "exit": ck.get("exit"), "clauses": ck.get("clauses"),
                  "error": res.get("error")})
     print(f"| {name} | {prop} | {'confirmed' if res.get('tests_ok') and res.get('demo_ok') else 'NOT CONFIRMED'} | "
-          f"{'DETECTED' if ck.get('detected') else 'missed (exit %s)' % ck.get('exit')} | {', '.join((ck.get('clauses') or [])[:2])} |", flush=True)
+          f"{'DETECTED' if ck.get('detected') else 'missed (exit %s)' % ck.get('exit')} | {', '.join((ck.get('clauses') or [])[:2])}"
+          f"{' caught by ' + ','.join(k for k, v in others.items() if v) if any(others.values()) else ''} |", flush=True)
     json.dump(rows, open(out_path, "w"), indent=1)
